@@ -15,7 +15,7 @@ cs=sorted(set(c.split(':')[0] for c in m.get('caught_by',[])))
 print(' '.join(c for c in cs if c!='$p'))")
   for c in $p $extra; do
     r=$(lib/try_seeded.sh $id $c quick 2>&1)
-    if echo "$r" | grep -q "^VIOLATION"; then v=CAUGHT; elif echo "$r" | grep -q "TOOL-ERROR"; then v=TOOLERR; else v=MISSED; fi
+    if echo "$r" | grep -q "^VIOLATION"; then v=CAUGHT; elif echo "$r" | grep -q "TOOL-ERROR\|patch does not apply"; then v=TOOLERR; else v=MISSED; fi
     k=$(echo "$r" | grep "^  key" | head -2 | tr '\n' ' ')
     echo "$id $c $v $k" >> $out
   done
